@@ -146,8 +146,11 @@ CLAIMED["C08"] = dict(
          "U(t) by at most the sum of the two truncation bounds (refine_bound). Tied to EvolutionSuperOperator by 1e-9 (relative) "
          "comparison of the whole data array in both modes (jit with/without save, boundary (step,Ndense) pairs where float division is "
          "inexact) and by the oracle: identity, semigroup, trace/Hermiticity preservation, apply() vs direct propagation, jit vs all, "
-         "refinement and distance to expm within the bound. Partial: 'apply(U,rho) = propagate(rho)' (linearity of the loop in the "
-         "state) and trace/Hermiticity of U are observed, not proved.",
+         "refinement and distance to expm within the bound. The tensor assembled from the propagated matrix units, applied to ANY state, IS the propagated state: "
+         "for one dense step, for the Ndense steps of a time-axis step and hence for every stored time, every expansion order, "
+         "step, Hamiltonian and relaxation tensor (apply_elemStep, apply_denseT, apply_eq_propagate; the generator acts on the state "
+         "as a 4-index tensor, genTensor_linear, and so does every Taylor step, taylorStep_actsAs). Trace and Hermiticity of "
+         "U then follow from those of the propagated states (C02); as statements about U they are observed, not separately proved.",
     note="Lean kernel + standard axioms; model validated on generated inputs; scipy expm / spectral norms in the oracle.",
     technique="Lean 4 monoid-power proofs + tensordot associativity + Mathlib exponential bound + correspondence",
     ref="DESIGN.md §5 C08")
